@@ -30,6 +30,7 @@ ATOMS = [
     ("fstr", "f'{a}'"), ("fstr-spec", 'f"{a!r:>{w}}"'), ("fstr-nested-dq", "f'{\"n\"}'"), ("fstr-nested-same", "f'{'n'}'"),
     ("fstr-bracket", "f'{a[0]}{{x}}'"), ("fstr-triple", 'f"""{a}\n{b}"""'), ("fstr-rf", "rf'{a}\\d'"),
     ("concat", "'a' 'b'"), ("paren", "(a)"), ("list", "[a, b]"), ("dict", "{a: b}"), ("attr", "a.b"), ("attr-chain", "a.b.c"),
+    ("str-formfeed", "'a\x0cb'"), ("str-vt", "'a\x0bb'"), ("str-fs", "'a\x1cb'"), ("str-nel", "'a\x85b'"), ("str-ls", "'a\u2028b'"),
     ("attr-spaced", "a . b"), ("subscript", "a[0]"), ("call", "a(b)"), ("call-chain", "a.b(c).d"), ("call-kw", "a(b=c)"),
 ]
 TEMPLATES = [
@@ -39,6 +40,7 @@ TEMPLATES = [
     ("tab-def", "def f(p={0}):\n\treturn {1}\n"), ("glued-or", "x = a or{0}\n"), ("glued-if-else", "x = 1 if{0}else 2\n"),
     ("glued-in", "x = a in{0}\n"), ("glued-not", "x = not{0}\n"), ("blank-lines", "x = {0}\n\n\n# only comment\ny = {1}\n"),
     ("nested-block", "for i in {0}:\n    if i:\n        z = {1}\n    w = 1\n"), ("no-final-newline", "x = {0}"),
+    ("formfeed-line", "x = {0}\n\x0c\ny = {1}\n"), ("comment-formfeed", "x = {0}  # c\x0cd \x1c \u2028 e\ny = {1}\n"),
     ("decorated", "@{0}\ndef g():\n    return {1}\n"), ("lambda-default", "h = lambda q={0}: {1}\n"),
 ]
 
@@ -57,7 +59,7 @@ def line_starts(src):
 class C14(Check):
     pid = "C14"
     level = "exploration"
-    rule = ("cases = texts built from 18 statement templates x 40 expression atoms in each hole (one statement: full product; two "
+    rule = ("cases = texts built from 20 statement templates x 45 expression atoms in each hole (one statement: full product; two "
             "statements: every template pair with the same atom), kept when tokenize and compile accept them; evaluations = sub-checks "
             "per text: ignored_regions vs STRING/f-string/COMMENT token spans, real_code length and characters outside regions, "
             "SourceLinesAdapter offset<->line round trips for every offset and line, logical_line_in for every physical line carrying "
@@ -69,7 +71,7 @@ class C14(Check):
     chunksize = 32
 
     def bound_text(self, tier):
-        return "one statement: 18 templates x 40 atoms (x40 for two-hole templates); two statements: template pairs"
+        return "one statement: 20 templates x 45 atoms (x45 for two-hole templates); two statements: template pairs"
 
     def cases(self, tier):
         out = []
